@@ -11,7 +11,24 @@ NOTES = ("Every check: bin/check <ID> --tier quick|thorough. It regenerates work
          "harness and/or records real runs and validates them with TLC trace specifications, then writes evidence/<ID>.json. "
          "known_findings.json lists genuine defects (fixed: entries suppress nothing).")
 MC = "model_checking"
+SESSION_TXT = ("TLC checks the context state machine Riti.tla (both methods, session logic transcribed; candidate data abstract and nondeterministic) "
+               "for all in-contract histories to depth 6/7, then emits every history of depth 4/5 over class alphabets from 7 configurations for replay in the "
+               "real engine with symbolic selection/commit arguments bound to the real list lengths")
 CHECKS = {
+    "C01": dict(category=MC, design_ref="DESIGN.md 5 C01",
+                technique="TLC model checking of Riti.tla (in-contract language as a state machine) + replay of every generated history through the real engine under catch_unwind",
+                text=SESSION_TXT + "; a panic or a call over the time budget on any in-contract event is a violation. Recorded random/dictionary-guided runs over all 111 key codes add depth.",
+                note="bounded depth and class alphabets; replay contexts for the TLC histories run without the database; TLC, harness executor trusted"),
+    "C02": dict(category=MC, design_ref="DESIGN.md 5 C02",
+                technique="TLC model checking of PropWellFormed on Riti.tla + replay with every returned suggestion fully read out (both accessors, every index)",
+                text=SESSION_TXT + "; every returned suggestion is read out completely (length, preselected index, auxiliary text = the spec's composition, every candidate and pre-edit text). "
+                     "Known finding F05 (echoed selection byte on punctuation keys) is carved out explicitly in the invariant and in known_findings.json.",
+                note="selection bytes are always bound inside the previously returned list (the statement's proviso); fixed-mode auxiliary text compared against the descriptive transcript (drift, not violation)"),
+    "C06": dict(category=MC, design_ref="DESIGN.md 5 C06",
+                technique="TLC model checking of PropFreshWhenIdle / flag invariants on Riti.tla + differential replay: at every terminating event a brand-new context is forked and compared on the whole continuation",
+                text=SESSION_TXT + "; the statement's flag rules are checked at every event and, at every terminating event, a brand-new context with the same configuration is forked; "
+                     "used context and forks must render identically for the rest of the history (the configurations switch on the options that reveal each hidden piece of state)",
+                note="store held fixed (no learning commits); brand-new contexts are created with an empty database directory; bounded depth"),
     "C04": dict(category=MC, design_ref="DESIGN.md 5 C04",
                 technique="TLC exhaustive enumeration of Layout.Expected over the complete key space + exhaustive comparison of the real engine against the emitted table",
                 text="the space 65536 codes x 11 modifier patterns x numpad x 2 layouts is finite and enumerated completely on both sides: TLC (2.9M states) "
